@@ -219,3 +219,30 @@ def _shape(f):
     if n == 'AtomicProposition':
         return ('AtomicProposition', f.name)
     return (n,) + tuple(_shape(s) for s in f.subformulas())
+
+
+def kinded_grammar(logic, T):
+    """grammar of the printed forms of the REAL formulas of <logic>: one nonterminal per documented kind (state / path / A-rooted),
+    rules from the printing templates, admissible child kinds from the documented grammar (treeaut.doc_kind).
+    Used for "every printed form is accepted by the parser" (the single-kind grammar above over-approximates, which is right for
+    ambiguity but would demand acceptance of strings that are not printed forms of any formula)."""
+    from . import treeaut
+    kd = treeaut.doc_kind(logic)
+    kinds = ['S', 'P', 'Q']
+    G = {'K_' + k: [] for k in kinds}
+    for leaf in ('true', 'false', 'p', 'q'):
+        G['K_S'].append(((('t', leaf),), None))
+    for name, outs in T.items():
+        for k, toks in outs:
+            if name in ARITY and k != ARITY[name]:
+                continue
+            if name in ('Or', 'And') and k == 1:
+                continue
+            for kk in itertools.product(kinds, repeat=k):
+                res = kd(name, list(kk))
+                if res is None:
+                    continue
+                it = iter(kk)
+                rhs = tuple(('n', 'K_' + next(it)) if t in ('C1', 'C2', 'C3') else ('t', t) for t in toks)
+                G['K_' + res].append((rhs, (name, k)))
+    return G, ['K_' + k for k in kinds]
